@@ -25,13 +25,24 @@ def is_html(scanner: BackwardScanner):
 
     while not scanner.sol():
         scanner.consume_while(is_white_space)
+        ident_end = scanner.pos
 
         if consume_ident(scanner):
             # ate identifier: could be a tag name, boolean attribute or unquoted
             # attribute value
             if scanner.consume(Chars.Slash):
-                # either closing tag or invalid tag
-                ok = scanner.consume(Chars.AngleLeft)
+                # closing tag...
+                if scanner.consume(Chars.AngleLeft):
+                    ok = True
+                    break
+
+                # ...or a slash inside unquoted attribute value (`href=/x/y`):
+                # keep looking for the tag name
+                scanner.pos = ident_end
+                if consume_attribute_with_unquoted_value(scanner):
+                    continue
+
+                # invalid tag
                 break
             elif scanner.consume(Chars.AngleLeft):
                 # opening tag
